@@ -24,6 +24,7 @@ fn job<O: Subject>(op: O, wits: Vec<Wit<O::W>>, show: fn(&O::W) -> String) -> (S
 }
 
 fn job_keyed<O: Subject>(key: String, op: O, wits: Vec<Wit<O::W>>, show: fn(&O::W) -> String) -> (String, Job) {
+    assert!(!wits.is_empty(), "{key}");
     (
         key,
         Box::new(move |cfg: &Cfg| {
@@ -268,7 +269,7 @@ fn inputs_for(op: &Op, tier: Tier, seed: u64) -> Vec<Vec<V>> {
 }
 
 fn native_jobs(tier: Tier, seed: u64) -> Vec<(String, Job)> {
-    let configs: Vec<(u8, u8)> = if tier.is_thorough() { vec![(4, 8), (1, 8), (2, 11), (3, 16)] } else { vec![(4, 8)] };
+    let configs: Vec<(u8, u8)> = if tier.is_thorough() { vec![(4, 8), (1, 8), (2, 9), (3, 10)] } else { vec![(4, 8)] };
     let mut jobs = vec![];
     for (oi, op) in op_list(tier, seed).into_iter().enumerate() {
         let mut wits: Vec<Wit<Vec<V>>> = vec![];
@@ -279,7 +280,7 @@ fn native_jobs(tier: Tier, seed: u64) -> Vec<(String, Job)> {
                 wits.push(Wit { label, w: ins, in_domain });
             }
         }
-        let wits = if tier.is_thorough() { wits } else { thin(wits, 6) };
+        let wits = if tier.is_thorough() { wits } else { thin(wits, 5) };
         let (cols, mbl) = configs[oi % configs.len()];
         let nop = NOp { op, arch: arch(cols), max_bit_len: mbl };
         let j = job(nop, wits, native::show_ins);
@@ -326,6 +327,8 @@ fn family_jobs(tier: Tier, seed: u64) -> Vec<(&'static str, Vec<(String, Job)>)>
     let mut out: Vec<(&'static str, Vec<(String, Job)>)> = vec![];
     let push = |jobs: &mut Vec<(String, Job)>, op: GOp, wits: Vec<Wit<GW>>| {
         assert!(!wits.is_empty(), "{op:?}");
+        // quick tier: at most 6 witnesses per operation of the two big-integer families
+        let wits = if !t && matches!(op.family(), "biguint" | "secp256k1-scalar") { thin(wits, 6) } else { wits };
         jobs.push(job(op, wits, fam::show_gw));
     };
 
@@ -469,7 +472,7 @@ fn family_jobs(tier: Tier, seed: u64) -> Vec<(&'static str, Vec<(String, Job)>)>
         push(&mut jobs, GOp::VAssign, wit(0));
         push(&mut jobs, GOp::VLimits, wit(0));
         push(&mut jobs, GOp::VPaddingFlag, wit(0));
-        for n in [0usize, 1, 3, 4, 5, 16] {
+        for n in if t { vec![0usize, 1, 3, 4, 5, 16] } else { vec![1, 4, 5] } {
             push(&mut jobs, GOp::VTrim(n), wit(n));
         }
         out.push(("vector", jobs));
@@ -574,7 +577,7 @@ fn family_jobs(tier: Tier, seed: u64) -> Vec<(&'static str, Vec<(String, Job)>)>
     // ---------------- parsing
     {
         let mut jobs = vec![];
-        for (n, len) in [(40usize, 4usize), (8, 8), (33, 1)] {
+        for (n, len) in if t { vec![(40usize, 4usize), (8, 8), (33, 1)] } else { vec![(40, 4), (8, 8)] } {
             let mut v = vec![];
             let max = (n - len) as u64;
             let mut idxs = vec![0u64, 1, max / 2, 30.min(max), 31.min(max), max];
@@ -598,8 +601,10 @@ fn family_jobs(tier: Tier, seed: u64) -> Vec<(&'static str, Vec<(String, Job)>)>
         }
         let b64 = |items: &[(&str, bool)]| -> Vec<Wit<GW>> { items.iter().map(|(s, ok)| gw(format!("{s:?}"), *ok, |w| w.bytes = s.as_bytes().to_vec())).collect() };
         push(&mut jobs, GOp::Base64(4, true), b64(&[("QUJD", true), ("QUI=", true), ("QQ==", true), ("AAAA", true), ("////", true), ("!!!!", false), ("=AAA", false), ("\0\0\0\0", false)]));
-        push(&mut jobs, GOp::Base64(8, true), b64(&[("QUJDREVG", true), ("QUJDRA==", true), ("zzzzzzz=", true), ("QUJD====", false)]));
-        push(&mut jobs, GOp::Base64(2, false), b64(&[("QQ", true), ("AA", true), ("!!", false)]));
+        if t {
+            push(&mut jobs, GOp::Base64(8, true), b64(&[("QUJDREVG", true), ("QUJDRA==", true), ("zzzzzzz=", true), ("QUJD====", false)]));
+            push(&mut jobs, GOp::Base64(2, false), b64(&[("QQ", true), ("AA", true), ("!!", false)]));
+        }
         push(&mut jobs, GOp::Base64(3, false), b64(&[("QUI", true), ("AAA", true), ("==A", false)]));
         if t {
             // the example credential of the repository (JWT payload, base64url without padding)
@@ -632,7 +637,7 @@ fn family_jobs(tier: Tier, seed: u64) -> Vec<(&'static str, Vec<(String, Job)>)>
     // ---------------- byte hashes
     {
         let mut jobs = vec![];
-        let mut lens: Vec<(HashKind, Vec<usize>)> = vec![(HashKind::Sha256, if t { vec![0, 1, 55, 56, 64, 119, 120] } else { vec![0, 55, 56, 64] })];
+        let mut lens: Vec<(HashKind, Vec<usize>)> = vec![(HashKind::Sha256, if t { vec![0, 1, 55, 56, 64, 119, 120] } else { vec![0, 56] })];
         if t {
             lens.push((HashKind::Sha512, vec![0, 1, 111, 112, 128]));
             lens.push((HashKind::Sha3, vec![0, 1, 135, 136]));
@@ -665,6 +670,27 @@ fn family_jobs(tier: Tier, seed: u64) -> Vec<(&'static str, Vec<(String, Job)>)>
             push(&mut jobs, GOp::AsPi(PiKind::BPoint), al.bpts().iter().map(|x| gw(x.0, true, |w| w.bpts = vec![x.1])).collect());
         }
         out.push(("public-input", jobs));
+    }
+
+    // ---------------- map gadget
+    if t {
+        let mut jobs = vec![];
+        let n = al.nats();
+        let (k1, v1, k2, v2) = (F::from(7), F::from(70), n[4].1, n[2].1);
+        let mut v = vec![];
+        for (cl, content) in [("empty map", vec![]), ("1 entry", vec![k1, v1]), ("2 entries", vec![k1, v1, k2, v2]), ("key 0 set", vec![F::ZERO, v1])] {
+            for (kl, key) in [("key 7", k1), ("key 0", F::ZERO), ("key rnd", k2), ("key p-1", -F::ONE)] {
+                for (vl, val) in [("value 0", F::ZERO), ("value 5", F::from(5))] {
+                    v.push(gw(format!("{cl}, {kl}, {vl}"), true, |w| {
+                        w.nats = vec![key, val];
+                        w.nats.extend(content.iter().copied())
+                    }));
+                }
+            }
+        }
+        push(&mut jobs, GOp::MapGet, v.iter().step_by(2).cloned().collect());
+        push(&mut jobs, GOp::MapInsert, v);
+        out.push(("map", jobs));
     }
 
     // ---------------- variable-length hash gadgets (built from scratch): every vector length
@@ -712,8 +738,8 @@ fn family_jobs(tier: Tier, seed: u64) -> Vec<(&'static str, Vec<(String, Job)>)>
         out.push(("varlen-hash", jobs));
     }
 
-    // ---------------- foreign ECC
-    if t {
+    // ---------------- foreign ECC (scalar multiplication only in the thorough tier)
+    {
         let mut jobs = vec![];
         macro_rules! curve_jobs {
             ($c:expr, $pts:expr, $field:ident, $scs:expr, $scfield:ident, $idty:expr) => {{
@@ -747,7 +773,9 @@ fn family_jobs(tier: Tier, seed: u64) -> Vec<(&'static str, Vec<(String, Job)>)>
                         w.$field = vec![pts[pi].1]
                     }));
                 }
-                push(&mut jobs, GOp::FMul($c), m);
+                if t {
+                    push(&mut jobs, GOp::FMul($c), m);
+                }
                 // k out of n: pts = [id, G, -G, 2G, R]
                 let mut kn = vec![];
                 for (tl, tab) in [("G,-G,R", [1usize, 2, 4]), ("R,2G,G", [4, 3, 1])] {
@@ -781,7 +809,9 @@ fn family_jobs(tier: Tier, seed: u64) -> Vec<(&'static str, Vec<(String, Job)>)>
             }};
         }
         curve_jobs!(Curve::Secp, al.kpts(), kpts, al.kscs(), kscs, K256::identity());
-        curve_jobs!(Curve::Bls, al.bpts(), bpts, al.nats(), nats, G1Projective::identity());
+        if t {
+            curve_jobs!(Curve::Bls, al.bpts(), bpts, al.nats(), nats, G1Projective::identity());
+        }
         out.push(("foreign-ecc", jobs));
     }
     out
@@ -834,18 +864,27 @@ fn main() {
     let mut cx = Ctx::from_args("C09", Level::Exploration);
     cx.worker_rayon_threads = Some(1);
     cx.set_rule(
-        "operation registry (C04's native registry: arithmetic, linear combinations, inversion/division, zero/equality tests \
-         and assertions, boolean logic, bitwise ops, canonicity, bit/byte/chunk (de)composition, sign, range checks, comparison, \
-         select/swap, conversions, div_rem/rem; plus further operation families, see `families`) x witness set W = {unknown} u \
-         {every input tuple of the operation's boundary alphabet, in and out of domain} (quick: <= 6 tuples per native operation, \
-         spread over the alphabet). One case = one (operation, static parameters, configuration): the verifying key of the circuit \
-         carrying the unknown witness is the reference; per concrete witness one evaluation compares (1) keygen_vk_with_k bytes and \
-         transcript_repr, (2) MockProver fixed / selectors / permutation tables and number of constrained public inputs, (3) the \
-         circuit model (k, rows, table rows). Per operation one real proof with a satisfying witness is verified under the key made by \
-         setup_vk (no witness).",
+        "subjects: (a) C04's native registry (arithmetic, linear combinations, inversion/division, zero/equality tests and assertions, \
+         boolean logic, bitwise ops, canonicity, bit/byte/chunk (de)composition, sign, range checks, comparison, select/swap, \
+         conversions, div_rem/rem) under pow2range configurations; (b) further families through the standard library: Jubjub \
+         (assign, add, double, negate, msm 1..3, mul by constant, equality/zero tests and assertions, select, from coordinates, \
+         scalar from bytes / from native), Poseidon 1..9 and hash-to-curve, SHA-256/512, SHA3, Keccak, Blake2b at padding-boundary \
+         lengths, secp256k1 scalar field (foreign field chip incl. a lazily reduced chain), BigUint gadget at several bit bounds, \
+         byte vectors <16,4> (assign, limits, padding flags, trim) with EVERY length 0..16, parser fetch_bytes with every index \
+         class, base64, the JWT automaton, the Poseidon Merkle map, assign_as_public_input of every exposable type, foreign ECC \
+         on secp256k1 and BLS12-381 (assign, add, double, negate, select, equality, mul by constant, scalar mul, k-out-of-n points); \
+         (c) the variable-length SHA-256 / Poseidon gadgets built from scratch like the library's tests, with every vector length. \
+         Witness set W per subject = {unknown} u {every tuple of the subject's boundary alphabet, in and out of domain} (quick: thinned). \
+         One case = one (operation, static parameters, configuration): the verifying key of the circuit carrying the unknown witness \
+         is the reference (generated twice: must be reproducible); one evaluation per concrete witness compares (1) keygen_vk_with_k \
+         bytes + transcript_repr of the circuit carrying that witness, (2) MockProver fixed / selectors / permutation tables and the \
+         number of constrained public inputs against the first concrete witness, (3) the circuit model (k, rows, table rows, ...) and \
+         min_k(). Per subject one real proof made with a satisfying witness is verified under the key made without a witness \
+         (standard library: setup_vk/setup_pk/prove/verify).",
     );
-    cx.assume("the witness enters a relation only through Relation::circuit's `witness` argument (the harness relations never read the `instance` argument; exposed values are bound with constrain_as_public_input)");
+    cx.assume("the witness enters a relation only through Relation::circuit's `witness` argument (the harness relations never read the `instance` argument; exposed values are bound with constrain_as_public_input / assign_as_public_input)");
     cx.assume("keygen is compared at the circuit's own minimal k with a seeded SRS; a key difference that only shows at larger k is not explored");
+    cx.assume("keygen's assembly never evaluates advice closures, so with a concrete witness it only exercises branches on raw input Values; branches on assigned cells' values are exercised by the MockProver comparisons (2) and linked to the unknown-witness key by the real proof (4)");
     let seed = cx.seed;
     let tier = cx.tier;
     let cfg = Cfg { seed, proof_max_k: tier.pick(11, 14) };
@@ -857,14 +896,15 @@ fn main() {
     if let Some(o) = &only {
         cx.cap(format!("C09_FAMILY={o}: only this family was run"));
     }
-    let njobs = native_jobs(tier, seed);
-    if only.is_none() || only.as_deref() == Some("native") {
-        cx.run_cases("native", &njobs, |j| j(&cfg));
-    }
-
-    let quick_families = ["jubjub", "poseidon", "vector", "public-input", "varlen-hash", "biguint", "secp256k1-scalar", "parsing", "hash"];
+    // one pool for everything (a family has few, unequal cases); cheap families first
+    let order = ["public-input", "native", "jubjub", "poseidon", "foreign-ecc", "vector", "secp256k1-scalar", "biguint", "varlen-hash", "parsing", "hash", "map"];
+    let quick_families = ["public-input", "native", "jubjub", "poseidon", "foreign-ecc", "vector", "secp256k1-scalar", "biguint", "varlen-hash", "parsing", "hash"];
+    let mut groups = family_jobs(tier, seed);
+    groups.push(("native", native_jobs(tier, seed)));
+    groups.sort_by_key(|(n, _)| order.iter().position(|o| o == n).unwrap_or(usize::MAX));
     let mut fams = vec![];
-    for (name, jobs) in family_jobs(tier, seed) {
+    let mut all: Vec<(String, Job)> = vec![];
+    for (name, jobs) in groups {
         if let Some(o) = &only {
             if o != name {
                 continue;
@@ -873,14 +913,29 @@ fn main() {
             continue;
         }
         fams.push(json!({"family": name, "operations": jobs.len()}));
-        cx.run_cases(name, &jobs, |j| j(&cfg));
+        for (k, j) in jobs {
+            let timed: Job = Box::new(move |cfg: &Cfg| {
+                let t0 = std::time::Instant::now();
+                let mut o = j(cfg);
+                o.counter(&format!("worker_ms[{name}]"), t0.elapsed().as_millis() as u64);
+                o
+            });
+            all.push((format!("{name}/{k}"), timed));
+        }
     }
+    cx.run_cases("ops", &all, |j| j(&cfg));
     cx.extra("families", json!(fams));
+    let noref = ["sizing-panic", "keygen-err", "keygen-panic"].iter().map(|c| cx.class_count(&format!("ops:no-reference:{c}"))).sum::<u64>();
+    cx.note(format!("{noref} operation(s) had no reference because sizing / key generation without a witness already fails (static parameters outside the operation's contract; reported by the gadget checks)"));
 
     let compared = cx.counter_value("witnesses_compared");
     let proofs = cx.counter_value("real_proofs");
-    cx.require(compared > 500, "at least 500 witness comparisons");
-    cx.require(proofs > 100, "at least 100 real proofs under the unknown-witness key");
-    cx.require(cx.class_count("native:ood:keygen-panic") + cx.class_count("native:ood:mock-run-failed") + cx.class_count("native:mock:unsat") > 20, "out-of-domain witnesses must be part of W");
+    if only.is_none() && cx.remaining_s() > 0.0 {
+        // (not meaningful if the wall budget cut the run short: the cap is reported instead)
+        cx.require(compared > 1500, "at least 1500 witness comparisons");
+        cx.require(proofs > 250, "at least 250 real proofs under the unknown-witness key");
+        cx.require(cx.class_count("ops:ood:mock-run-failed") + cx.class_count("ops:mock:unsat") > 50, "out-of-domain witnesses must be part of W");
+        cx.require(cx.class_count("ops:same-structure") > 1500, "comparisons must succeed somewhere");
+    }
     cx.finish()
 }
